@@ -86,7 +86,8 @@ def make_jobs(cases, planners, n_cases, spaces_per_case, rng, all_r2=False):
                              "range": rng.choice(["default", "default", "tiny", "huge"]),
                              "budget": budget_for(p["flags"], rng),
                              "seed": rng.randrange(1, 1 << 30),
-                             "res": rng.choice([0.01, 0.01, 0.05])})
+                             "res": rng.choice([0.01, 0.01, 0.05]),
+                             "query": rng.choice(["single"] * 5 + ["multistart", "goalstates", "region"])})
         rng.shuffle(runs)
         # split so that shards balance
         for i in range(0, len(runs), 8):
@@ -125,6 +126,8 @@ def judge(ck, trace, label):
         r = rows[b["line"] - 1]
         for clause in sorted(b["failed"]):
             key = "%s:%s" % (r.get("planner", "?"), clause)
+            if r.get("query", "single") != "single":
+                key += ":" + r["query"]   # several starts / goal states / non-sampleable region
             rp = ck.replay_file("run-%s-%d.json" % (label, b["line"]), json.dumps(r, indent=1))
             if ck.violation(key, "planner %s in %s on map obst=%s start=%s goal=%s (thr=%s range=%s budget=%s seed=%s): "
                             "status %s, contract clause '%s' fails" %
